@@ -195,6 +195,7 @@ fn digits_bucket(n: usize) -> &'static str {
 
 pub fn check_lit(lit: &Lit, digits_opt: bool) -> CaseResult {
     let text = lit.text();
+    let mut ev_bytes_class = false;
     let case = || json!({"lit": lit, "digits_opt": digits_opt});
     let got = match parse_with(&text, digits_opt) {
         Ok(g) => g,
@@ -255,8 +256,39 @@ pub fn check_lit(lit: &Lit, digits_opt: bool) -> CaseResult {
             }
         }
     }
+    // an integer literal of a byte's value as an element of a byte vector
+    if let (Lit::Int { .. }, Got::UInt(u), false) = (lit, &got, digits_opt) {
+        if *u <= 255 {
+            for open in ["#u8(", "#vu8("] {
+                for (tpl, stream) in [("{o}{n})", false), ("{o}1 {n} 255)", true), ("(x {o}{n} 0))", false)] {
+                    let t2 = tpl.replace("{o}", open).replace("{n}", &text);
+                    let r = catch(|| if stream { lexpr::from_reader(std::io::Cursor::new(t2.as_bytes())) } else { lexpr::from_str(&t2) });
+                    let want: Vec<u8> = if tpl.contains("1 {n}") { vec![1, *u as u8, 255] } else if tpl.starts_with("(x") { vec![*u as u8, 0] } else { vec![*u as u8] };
+                    let got_bytes: Result<Vec<u8>, String> = match r {
+                        Err(pm) => Err(format!("panic: {}", pm)),
+                        Ok(Err(e)) => Err(err_text(&e)),
+                        Ok(Ok(v)) => {
+                            let b = if tpl.starts_with("(x") { v.get(1).and_then(|x| x.as_bytes()).map(|b| b.to_vec()) } else { v.as_bytes().map(|b| b.to_vec()) };
+                            b.ok_or_else(|| format!("not a byte vector: {}", v))
+                        }
+                    };
+                    if got_bytes.as_ref().ok() != Some(&want) {
+                        return Err(Failure::new(
+                            format!("C05 in-bytevector differs open={} {}", open, if stream { "src=reader" } else { "src=str" }),
+                            format!("{:?} alone reads as {} but {:?} reads as {:?}", clip(&text, 80), u, clip(&t2, 100), got_bytes),
+                            case(),
+                        ));
+                    }
+                }
+            }
+            ev_bytes_class = true;
+        }
+    }
     let opt = if digits_opt { " opts=leading-digit-symbols" } else { "" };
     let mut classes: Vec<&'static str> = Vec::new();
+    if ev_bytes_class {
+        classes.push("context:byte-vector");
+    }
     let verdict: Result<(), (String, String)> = match lit {
         Lit::Int { radix, digits, sign, zeros, prefix } => {
             let v = Big::from_digits(digits, *radix).expect("generator produced valid digits");
